@@ -471,6 +471,7 @@ func Main(args []string) int {
 	defer d.w.Close()
 	jobs := []func(){
 		func() { d.algebra(); d.traces() },
+		func() { d.sums() },
 		func() {
 			d.bgv(newBgv(bgv.ParametersLiteral{LogN: 10, LogQ: []int{56, 46}, LogP: []int{56}, PlaintextModulus: 97}), "bgv-2x8-gap")
 		},
